@@ -70,7 +70,9 @@ const (
 	avInt  // exact
 	avIntG // "≥ i"
 	avChar // marker byte or 'x'
-	avStr  // the abstract string itself
+	avStr  // the abstract argument, or its suffix from byte offset off
+	avCStr // a constant string
+	avTuple
 	avPanic
 )
 
@@ -80,6 +82,9 @@ type aval struct {
 	i   int64
 	ch  byte
 	why string
+	off int    // avStr: the suffix arg[off:]
+	s   string // avCStr
+	t   []aval // avTuple
 }
 
 func unk(why string) aval { return aval{k: avUnknown, why: why} }
@@ -134,10 +139,14 @@ func (e *btEval) evalFn(fn *ssa.Function, args []aval, depth int) aval {
 			case *ssa.Jump:
 				next = b.Succs[0]
 			case *ssa.Return:
-				if len(x.Results) != 1 {
-					return unk("result arity")
+				if len(x.Results) == 1 {
+					return e.val(env, x.Results[0], depth)
 				}
-				return e.val(env, x.Results[0], depth)
+				tup := aval{k: avTuple}
+				for _, rv := range x.Results {
+					tup.t = append(tup.t, e.val(env, rv, depth))
+				}
+				return tup
 			case *ssa.DebugRef:
 			case ssa.Value:
 				v := e.val(env, x, depth)
@@ -172,20 +181,23 @@ func (e *btEval) val(env map[ssa.Value]aval, v ssa.Value, depth int) aval {
 			n, _ := constant.Int64Val(x.Value)
 			return aval{k: avInt, i: n}
 		case constant.String:
-			return aval{k: avUnknown, why: "string constant", ch: 0}
+			return aval{k: avCStr, s: constant.StringVal(x.Value)}
 		}
 		return unk("const kind")
 	case *ssa.Call:
 		cc := x.Common()
 		if bi, ok := cc.Value.(*ssa.Builtin); ok && bi.Name() == "len" && len(cc.Args) == 1 {
 			a := e.val(env, cc.Args[0], depth)
+			if a.k == avCStr {
+				return aval{k: avInt, i: int64(len(a.s))}
+			}
 			if a.k != avStr {
 				return unk("len of non-argument")
 			}
 			if e.s.n == btMaxLen {
-				return aval{k: avIntG, i: btMaxLen}
+				return aval{k: avIntG, i: int64(btMaxLen - a.off)}
 			}
-			return aval{k: avInt, i: int64(e.s.n)}
+			return aval{k: avInt, i: int64(e.s.n - a.off)}
 		}
 		if cal := cc.StaticCallee(); cal != nil && !cc.IsInvoke() {
 			name := e.c.calleeName(cc)
@@ -194,17 +206,17 @@ func (e *btEval) val(env map[ssa.Value]aval, v ssa.Value, depth int) aval {
 				k, isK := cc.Args[1].(*ssa.Const)
 				if a.k == avStr && isK && k.Value != nil && k.Value.Kind() == constant.String {
 					pre := constant.StringVal(k.Value)
-					if len(pre) > btMaxLen {
+					if a.off+len(pre) > btMaxLen {
 						return unk("long prefix")
 					}
-					if len(pre) > e.s.n {
+					if a.off+len(pre) > e.s.n {
 						return aval{k: avBool, b: false}
 					}
 					for i := 0; i < len(pre); i++ {
 						if !e.markers[pre[i]] {
 							return unk("prefix byte outside the marker alphabet")
 						}
-						if e.s.ch[i] != pre[i] {
+						if e.s.ch[a.off+i] != pre[i] {
 							return aval{k: avBool, b: false}
 						}
 					}
@@ -231,16 +243,55 @@ func (e *btEval) val(env map[ssa.Value]aval, v ssa.Value, depth int) aval {
 		}
 		a := e.val(env, xs, depth)
 		i := e.val(env, xi, depth)
+		if a.k == avCStr && i.k == avInt {
+			if i.i < 0 || i.i >= int64(len(a.s)) {
+				return aval{k: avPanic, why: fmt.Sprintf("index %d out of range for constant %q", i.i, a.s)}
+			}
+			if !e.markers[a.s[i.i]] {
+				return aval{k: avChar, ch: 'x'}
+			}
+			return aval{k: avChar, ch: a.s[i.i]}
+		}
 		if a.k != avStr || i.k != avInt {
 			return unk("index operands")
 		}
-		if i.i < 0 || (i.i >= int64(e.s.n) && !(e.s.n == btMaxLen && i.i < btMaxLen)) {
+		i.i += int64(a.off)
+		if i.i < int64(a.off) || (i.i >= int64(e.s.n) && !(e.s.n == btMaxLen && i.i < btMaxLen)) {
 			if e.s.n == btMaxLen && i.i >= btMaxLen {
 				return unk("index beyond the abstraction")
 			}
 			return aval{k: avPanic, why: fmt.Sprintf("index %d out of range for %s", i.i, e.s)}
 		}
 		return aval{k: avChar, ch: e.s.ch[i.i]}
+	case *ssa.Extract:
+		tv := e.val(env, x.Tuple, depth)
+		if tv.k == avPanic {
+			return tv
+		}
+		if tv.k != avTuple || x.Index >= len(tv.t) {
+			return unk("extract of a non-tuple: " + tv.why)
+		}
+		return tv.t[x.Index]
+	case *ssa.Slice:
+		a := e.val(env, x.X, depth)
+		if a.k != avStr || x.High != nil || x.Max != nil {
+			return unk("slice form")
+		}
+		lo := aval{k: avInt}
+		if x.Low != nil {
+			lo = e.val(env, x.Low, depth)
+		}
+		if lo.k != avInt || lo.i < 0 {
+			return unk("slice bound")
+		}
+		no := a.off + int(lo.i)
+		if no > e.s.n {
+			return aval{k: avPanic, why: fmt.Sprintf("slice [%d:] out of range for %s", no, e.s)}
+		}
+		if no > btMaxLen {
+			return unk("slice beyond the abstraction")
+		}
+		return aval{k: avStr, off: no}
 	case *ssa.UnOp:
 		if x.Op == token.NOT {
 			a := e.val(env, x.X, depth)
@@ -270,6 +321,39 @@ func (e *btEval) val(env map[ssa.Value]aval, v ssa.Value, depth int) aval {
 }
 
 func (e *btEval) binop(op token.Token, l, r aval) aval {
+	// string comparisons: constants with constants; the argument (suffix) with ""
+	if (l.k == avStr || l.k == avCStr) && (r.k == avStr || r.k == avCStr) && (op == token.EQL || op == token.NEQ) {
+		if l.k == avCStr && r.k == avStr {
+			l, r = r, l
+		}
+		var eq bool
+		switch {
+		case l.k == avCStr && r.k == avCStr:
+			eq = l.s == r.s
+		case l.k == avStr && r.k == avCStr:
+			rem := e.s.n - l.off
+			if r.s == "" {
+				eq = rem == 0
+			} else if e.s.n == btMaxLen {
+				return unk("argument compared with a non-empty constant beyond the abstraction")
+			} else if rem != len(r.s) {
+				eq = false
+			} else {
+				eq = true
+				for i := 0; i < len(r.s); i++ {
+					if !e.markers[r.s[i]] {
+						return unk("constant byte outside the marker alphabet")
+					}
+					if e.s.ch[l.off+i] != r.s[i] {
+						eq = false
+					}
+				}
+			}
+		default:
+			return unk("argument compared with itself")
+		}
+		return aval{k: avBool, b: eq == (op == token.EQL)}
+	}
 	// char vs int constant
 	if l.k == avInt && r.k == avChar {
 		l, r = r, l
